@@ -7,9 +7,8 @@ T4 = ["RecvBuffer"]
 PROOF_MODULES = ["GrpcProofs.Properties.C05"]
 THEOREMS = ["GrpcProofs.C05." + t for t in (
     "ledger", "monitor_accepts_model", "fifo_refinement", "delivered_is_prefix",
-    "error_after_all_prior_data", "nothing_after_error", "put_after_error_dropped_partial",
-    "second_error_put_counterexample", "blocks_only_when_drained", "compaction_preserves_bytes",
-    "noPanic_of_oneErr")]
+    "error_after_all_prior_data", "nothing_after_error", "put_after_error_dropped",
+    "blocks_only_when_drained", "compaction_preserves_bytes", "model_never_panics")]
 DESIGN_REF = "DESIGN.md section 8, C05"
 TECHNIQUE = ("Lean 4 theorems (forward simulation of the ported recvBuffer/recvBufferReader step function by a FIFO byte-queue "
              "automaton, invariant induction over op lists) + T1 op-level differential correspondence on the real recvBuffer and "
@@ -22,14 +21,16 @@ LEVEL_NOTE = ("Trusted: Lean kernel; the hand model lean/GrpcModel/Model/RecvBuf
               "receive; tied by the differential run); mem.Buffer Split/Read/Free are modelled as list take/drop (the harness pool "
               "poisons freed buffers so a use-after-free shows up as wrong bytes). The reader's split point (rbegin/fin) repeats the "
               "three-line prefix of Read in the harness. recvMsgSize (unsafe.Sizeof) is compared at run time via the `consts` op. "
-              "Reading: 'nothing is delivered after it' = every later read returns the same error and no bytes.")
+              "Reading: 'nothing is delivered after it' = every later read returns the same error and no bytes. "
+              "F19 (a second error put panicked: nil buffer Free) is fixed by /repo 6c0457f; the model ports the fixed put, the theorems "
+              "no longer carry a no-panic hypothesis and put_after_error_dropped covers data and errors.")
 GAP = "client flavour of the reader (ctx cancellation path readClient, covered by C22); real goroutine scheduling is replaced by op order (mutex-serialised steps)"
 ASSUMPTIONS = ["one reader goroutine per stream (Read/ReadMessageHeader are not called concurrently)",
                "recvMsg values are {buffer} or {err} (all constructor sites)", "64-bit platform (recvMsgSize = 56)"]
 RULE = ("Each case: cfg (compaction on/off), then one of five profiles: burst of 500-1300 sub-57-byte frames with a slow reader "
         "(compaction fires, ledger head-decrements), utilisation-boundary sizes 55/56/57, interleaved random puts/reads/headers with "
         "frames up to 20000 bytes (pooled buffers, suffix resets), split reads (rbegin, puts, fin) and bare loads, error injection "
-        "anywhere with puts after it; reads of 0..70000 bytes. Non-trivial = some read returned data; distinct = distinct op list.")
+        "anywhere with data and further errors put after it; reads of 0..70000 bytes. Non-trivial = some read returned data; distinct = distinct op list.")
 
 
 def hexs(bs):
@@ -89,10 +90,7 @@ class Gen:
             self.ops.append("load")
 
     def err(self, force=False):
-        # a second error put panics in the unchanged code (known finding F19): only the dedicated tail
-        # of a case (force=True) does it, so that the rest of the case is still judged
-        if self.erred and not force:
-            return self.put(self.small())
+        # errors put after the first one must be dropped (before /repo 6c0457f they panicked: F19)
         self.erred = True
         self.ops.append("put e %d" % self.rng.choice([1, 1, 2, 3, 14]))
 
